@@ -171,6 +171,9 @@ def run(ck, model_ok):
             if not unmodelled:
                 for op in ('validate', 'is_ready', 'dump', 'infohash'):
                     if exp[op] != (out[op][0], out[op][1][:1]) if out[op][0] == 'err' else exp[op] != out[op]:
+                        if ml.url_model_gap(md):
+                            ck.count('model:url-outside-the-url-model')      # is_url is a parameter of the theorems
+                            break
                         agree = False
                         ck.fail('tie', op, case, repr(exp[op])[:300], repr(out[op])[:300], 'model and implementation disagree')
                         break
